@@ -146,6 +146,72 @@ func c05Extras(p *objPool) {
 	p.add(geojson.NewLineString(geometry.NewLine(ring, &geometry.IndexOptions{Kind: geometry.RTree, MinPoints: 1})), "LineString(indexed)", nil)
 }
 
+// c05Builders: constructions that may themselves fail (index building over
+// degenerate layouts); run under the same fuel / panic guard as calls.
+func c05Builders() []struct {
+	name string
+	fn   func() geojson.Object
+} {
+	var out []struct {
+		name string
+		fn   func() geojson.Object
+	}
+	layouts := map[string]func(n int) []geometry.Point{
+		"duplicates": func(n int) []geometry.Point {
+			ps := make([]geometry.Point, n)
+			for i := range ps {
+				ps[i] = geometry.Point{X: 5, Y: 5}
+			}
+			return ps
+		},
+		"duplicates+excursion": func(n int) []geometry.Point {
+			ps := make([]geometry.Point, n)
+			for i := range ps {
+				ps[i] = geometry.Point{X: 5, Y: 5}
+			}
+			if n > 3 {
+				ps[n-3] = geometry.Point{X: 7, Y: 8}
+			}
+			return ps
+		},
+		"grid3x3": func(n int) []geometry.Point {
+			ps := make([]geometry.Point, n)
+			for i := range ps {
+				ps[i] = geometry.Point{X: float64(i % 3), Y: float64((i / 3) % 3)}
+			}
+			return ps
+		},
+		"collinear": func(n int) []geometry.Point {
+			ps := make([]geometry.Point, n)
+			for i := range ps {
+				ps[i] = geometry.Point{X: float64(i % 2), Y: 0}
+			}
+			return ps
+		},
+	}
+	for _, ln := range []string{"duplicates", "duplicates+excursion", "grid3x3", "collinear"} {
+		gen := layouts[ln]
+		for _, n := range []int{16, 17, 18, 19, 21, 33, 34, 40, 70, 300} {
+			for _, k := range []geometry.IndexKind{geometry.RTree, geometry.QuadTree} {
+				for _, closed := range []bool{false, true} {
+					n, k, closed, ln := n, k, closed, ln
+					out = append(out, struct {
+						name string
+						fn   func() geojson.Object
+					}{fmt.Sprintf("%s n=%d kind=%v closed=%v", ln, n, k, closed), func() geojson.Object {
+						opts := &geometry.IndexOptions{Kind: k, MinPoints: 1}
+						if closed {
+							return geojson.NewPolygon(geometry.NewPoly(gen(n), nil, opts))
+						}
+						return geojson.NewLineString(geometry.NewLine(gen(n), opts))
+					}})
+				}
+			}
+		}
+	}
+	return out
+}
+
 func safeNumPoints(o geojson.Object) (n int) {
 	defer func() {
 		if recover() != nil {
@@ -181,6 +247,17 @@ func evalCall(c *rt.Case) (bool, string, string, error) {
 			}
 			r.out = fmt.Sprint(o, err)
 			return
+		}
+		if c.Op == "build" {
+			for _, b := range c05Builders() {
+				if b.name == c.X["recv"] {
+					obj := b.fn()
+					obj.Contains(obj)
+					obj.Intersects(obj)
+					r.out = obj.JSON()
+					return
+				}
+			}
 		}
 		for size := 0; size < 2; size++ {
 			pool := buildObjPool(size)
